@@ -24,7 +24,7 @@ ASSUMPTIONS = [
     'label names cannot be read as numbers, functions or mnemonics; keywords are only used by the keyword-label fault',
     'constants refer only to earlier constants',
 ]
-BUDGET = {'quick': 3200, 'thorough': 100000}
+BUDGET = {'quick': 3200, 'thorough': 200000}
 LEVEL_TEXT = ('Exploration over arrangements of definitions and uses with an independent resolver; same-named labels '
               'in different regions/files make a wrong resolution visible as a wrong probe value, fault injection '
               'makes a missing rejection visible as exit status 0.')
